@@ -255,10 +255,32 @@ fn judge(
         if !aliases {
             // The harness re-creates the input of later calls from the stored proof
             // (`proof`, `&proof.stark_common`, the returned `table_public_inputs`); that is
-            // only faithful while `into_recursion_input` hands out exactly those references.
-            vpcore::machinery_error(
-                "into_recursion_input no longer aliases (proof, proof.stark_common): the harness must be updated",
-            );
+            // faithful while `into_recursion_input` hands out those references, or common data
+            // with the same content (commitment, per-instance metadata, lookup counts). Common
+            // data of ANOTHER content are a defect of the conversion, not of the harness: the
+            // child can then not be chained the way a user of the API would chain it.
+            let digest = |cd: &p3_batch_stark::CommonData<Cfg>| -> String {
+                match &cd.preprocessed {
+                    None => format!("none|{}", cd.lookups.len()),
+                    Some(g) => format!(
+                        "{}|{:?}|{:?}|{}",
+                        vpcore::serde_json::to_string(&g.commitment).unwrap_or_default(),
+                        g.instances.iter().map(|m| m.as_ref().map(|m| (m.matrix_index, m.width, m.degree_bits))).collect::<Vec<_>>(),
+                        g.matrix_to_instance,
+                        cd.lookups.len()
+                    ),
+                }
+            };
+            if let RecursionInput::BatchStark { common_data, .. } = &inp {
+                let (a, b) = (digest(common_data), digest(&out.0.stark_common));
+                if a != b {
+                    return Err(format!(
+                        "into_recursion_input hands out common data that are not the proof's own stark_common: {} vs {}",
+                        &a[a.len().saturating_sub(120)..],
+                        &b[b.len().saturating_sub(120)..]
+                    ));
+                }
+            }
         }
         Ok((tpi, counters(&c), circuit_digest(&c)))
     });
